@@ -7,6 +7,7 @@ import LyModel.Path.Drv
 import LyModel.Lyb.Drv
 import LyModel.Conc.Drv
 import LyModel.Iff.Drv
+import LyModel.XPath.Drv
 /-! Dispatch table of the line-protocol driver: one handler per component. -/
 namespace LyModel.Drv
 
@@ -21,6 +22,7 @@ def dispatch (comp op : String) (args : List String) : String :=
   | "lyb" => Lyb.Drv.handle op args
   | "conc" => Conc.Drv.handle op args
   | "iff" => Iff.Drv.handle op args
+  | "xpath" => XPath.Drv.handle op args
   | _ => "err NoSuchComponent"
 
 end LyModel.Drv
